@@ -1462,6 +1462,9 @@ class ProgramData:
         if input_filename is None:
             raise RuntimeError("No input file provided!")
 
+        if cls._options[ProgramOption.COLLAPSED_RANGE_LENGTH] < 1:
+            raise RuntimeError("Invalid value for option collapsed-range-length")
+
         for j in range(optimize_level + 1):
             for i in cls._OPTIMIZE_LEVELS[j]:
                 cls._flags[i] = True
